@@ -158,6 +158,77 @@ def check_case(job):
     return out, n
 
 
+def icpert(run, tier, seed):
+    """spec/solutions/ICPert.tla -> aurel.solutions.ICPertFLRW: the first-order initial data on a quadratic curvature perturbation
+    (constant, fully non-diagonal Hessian) for rational backgrounds; TLC checks K = -1/2 d_t gamma on the Einstein-de Sitter ones."""
+    import types
+    from fractions import Fraction as Fr
+    from random import Random
+    import aurel.finitedifference as fdm
+    from aurel.solutions import ICPertFLRW as mod
+    from ..tlc import run_tlc, wrapper
+    rng = Random(seed + 17)
+    r = lambda q: f"<<{Fr(q).numerator}, {Fr(q).denominator}>>"
+    bgs = [dict(a2=Fr(4), H=Fr(1, 3), fL=Fr(1), Om=Fr(1), eds=True), dict(a2=Fr(9, 4), H=Fr(2), fL=Fr(1), Om=Fr(1), eds=True),
+           dict(a2=Fr(1), H=Fr(1, 2), fL=Fr(1, 2), Om=Fr(3, 4), eds=False), dict(a2=Fr(16), H=Fr(3, 2), fL=Fr(3, 5), Om=Fr(1, 4), eds=False)]
+    shape = (12, 13, 14)
+    jobs = []
+    for order in ((2, 4, 6, 8) if tier == "thorough" else (4, 6)):
+        for boundary in ("no boundary", "periodic") if order == 4 else ("no boundary",):
+            for bg in bgs:
+                hess = rng.sample([Fr(k, 8) for k in range(-7, 8) if k], 6)          # xx, xy, xz, yy, yz, zz all different
+                lin = [Fr(rng.randint(-3, 3), 8) for _ in range(3)]
+                jobs.append((order, boundary, bg, hess, lin, Fr(rng.randint(-2, 2), 16)))
+    cases, meta = [], []
+    for order, boundary, bg, hess, lin, c0 in jobs:
+        h = (Fr(1, 4), Fr(1, 2), Fr(1, 8))
+        org = (Fr(-1, 2), Fr(1, 4), Fr(0))
+        H2 = {(0, 0): hess[0], (0, 1): hess[1], (0, 2): hess[2], (1, 1): hess[3], (1, 2): hess[4], (2, 2): hess[5]}
+        rc_at = lambda X: c0 + sum(lin[i] * X[i] for i in range(3)) + sum((1 if i != j else Fr(1, 2)) * H2[(i, j)] * X[i] * X[j] for (i, j) in H2)
+        probes = [(0, 0, 0), (5, 6, 6), (11, 12, 13), (1, 0, 9)]
+        if boundary == "periodic":
+            probes = [(5, 6, 6)]      # a polynomial is not periodic: only a point whose stencils stay inside the box
+        for pr in probes:
+            X = [org[i] + pr[i] * h[i] for i in range(3)]
+            cases.append("[a2 |-> %s, H |-> %s, fL |-> %s, Om |-> %s, rc |-> %s, hess |-> <<%s>>, eds |-> %s]" % (
+                r(bg["a2"]), r(bg["H"]), r(bg["fL"]), r(bg["Om"]), r(rc_at(X)), ", ".join(r(x) for x in hess), "TRUE" if bg["eds"] else "FALSE"))
+            meta.append((order, boundary, bg, hess, lin, c0, h, org, pr))
+    name, text, cl = wrapper("ICPert", {"Cases": "<<" + ", ".join(cases) + ">>"})
+    cfg = f"SPECIFICATION Spec\nCONSTANTS\n{cl}\nINVARIANT KIsMinusHalfDtGamma\nINVARIANT Symmetric\nINVARIANT Emit\n"
+    res = run_tlc(name, cfg, ["solutions", "exact"], extra_files={name + ".tla": text}, timeout=1200)
+    if res.violated:
+        raise RuntimeError("ICPert.tla violates " + res.violated + ": the transcribed initial data do not have K = -1/2 d_t gamma")
+    run.add_tlc(res, f"ICPert.tla: {len(cases)} (background, curvature perturbation, grid point) states; K = -1/2 d_t gamma on the Einstein-de Sitter ones")
+    by = {p_["case"]: p_ for p_ in res.printed if "case" in p_}
+    fr = lambda x: Fr(x[0], x[1])
+    built = {}
+    for ci, (order, boundary, bg, hess, lin, c0, h, org, pr) in enumerate(meta, start=1):
+        key = (order, boundary, tuple(hess), tuple(lin), c0, tuple(bg.items()))
+        if key not in built:
+            fd = fdm.FiniteDifference({"Nx": shape[0], "Ny": shape[1], "Nz": shape[2], "xmin": float(org[0]), "ymin": float(org[1]), "zmin": float(org[2]),
+                                       "dx": float(h[0]), "dy": float(h[1]), "dz": float(h[2])}, boundary=boundary, fd_order=order, verbose=False)
+            X = (fd.x, fd.y, fd.z)
+            H2 = {(0, 0): hess[0], (0, 1): hess[1], (0, 2): hess[2], (1, 1): hess[3], (1, 2): hess[4], (2, 2): hess[5]}
+            Rc = float(c0) + sum(float(lin[i]) * X[i] for i in range(3)) + sum((1.0 if i != j else 0.5) * float(H2[(i, j)]) * X[i] * X[j] for (i, j) in H2)
+            sol = types.SimpleNamespace(a=lambda t, b=bg: float(b["a2"]) ** 0.5, Hprop=lambda t, b=bg: float(b["H"]), fL=lambda t, b=bg: float(b["fL"]),
+                                        Omega_m=lambda t, b=bg: float(b["Om"]))
+            built[key] = (mod.gammadown3(sol, fd, 1.0, Rc), mod.Kdown3(sol, fd, 1.0, Rc), mod.delta1(sol, fd, 1.0, Rc))
+        G, K, D = built[key]
+        o = by[ci]
+        for nm, got, want in (("gammadown3", G[(slice(None), slice(None)) + pr], np.array([float(fr(x)) for x in o["gam"]]).reshape(3, 3)),
+                              ("Kdown3", K[(slice(None), slice(None)) + pr], np.array([float(fr(x)) for x in o["K"]]).reshape(3, 3)),
+                              ("delta1", np.asarray(D[pr]), np.asarray(float(fr(o["delta1"]))))):
+            run.count(("ICPertFLRW", nm, ci))
+            if np.abs(got - want).max() > 1e-9 * max(1.0, np.abs(want).max()):
+                run.violation({"clause": "ClosedFormAsPublished", "module": "ICPertFLRW", "scalar": nm},
+                              f"ICPertFLRW.{nm} on the background a^2={bg['a2']}, H={bg['H']}, f_L={bg['fL']}, Omega_m={bg['Om']} with a quadratic Rc of Hessian "
+                              f"(xx, xy, xz, yy, yz, zz) = {[str(x) for x in hess]} at grid point {pr} (fd_order={order}, {boundary}): {np.asarray(got).round(9).tolist()}, "
+                              f"first-order initial data with K = -1/2 d_t gamma: {np.asarray(want).round(9).tolist()}", {"module": "ICPertFLRW", "point": "icpert", "clause": "ClosedFormAsPublished"})
+                break
+        else:
+            run.traces += 1
+
+
 KAPPA = 8 * np.pi
 
 
@@ -189,6 +260,7 @@ def run(tier, seed):
             run.traces += 1
         for sig, what, rep in fnds:
             run.violation(sig, what, rep)
+    icpert(run, tier, seed)
     c = cases[6]
     run.sample({"module": c["module"], "point": [str(v) for v in c["point"]],
                 "gamma_xx_jet": {str(m): str(v) for m, v in c["gam"][(0, 0)].c.items() if v != 0},
